@@ -202,7 +202,14 @@ func runC06Case(r *Rng) (*thSession, *c06Plan, map[string]int) {
 	closedAt := uint64(0)
 	lastOut := pl.legs[pl.n1-1]
 	final := pl.legs[len(pl.legs)-1]
-	for now := firstDay * 86400; now <= endNow+2*86400; now += 86400 {
+	// a third of the itineraries are reported ahead of departure (check-in one to three days early), so that
+	// daily updates fall between the report of a leg and its departure
+	lead := uint64(0)
+	if r.Chance(1, 3) {
+		lead = uint64(r.Range(1, 3))
+		stat["reported_ahead_of_departure"]++
+	}
+	for now := (firstDay - lead) * 86400; now <= endNow+2*86400; now += 86400 {
 		code := s.update(p, now, r)
 		if added > 0 && (code == 0 || code == 6) {
 			es := s.th.VerifEntries()
@@ -217,7 +224,7 @@ func runC06Case(r *Rng) (*thSession, *c06Plan, map[string]int) {
 					}
 				case i == len(pl.legs)-1: // final leg
 					due := now >= uint64(final.End) && (now-uint64(final.End))/86400 >= fi
-					over := (now-uint64(pl.legs[0].Start))/86400 > uint64(p.TL)
+					over := now >= uint64(pl.legs[0].Start) && (now-uint64(pl.legs[0].Start))/86400 > uint64(p.TL)
 					if !pl.promises && due {
 						want = 2
 					} else if pl.promises && over {
@@ -252,7 +259,7 @@ func runC06Case(r *Rng) (*thSession, *c06Plan, map[string]int) {
 			stat["marker_checks"]++
 		}
 		// report today's departures, in order
-		for added < len(pl.legs) && uint64(pl.legs[added].Start) < now+86400 {
+		for added < len(pl.legs) && uint64(pl.legs[added].Start) < now+86400*(1+lead) {
 			if s.add(pl.legs[added], r) != 0 {
 				s.fail("C06", "itinerary-flight-refused", fmt.Sprintf("AddFlight refused leg %d", added))
 			}
